@@ -40,6 +40,7 @@ theorem k_symm : ∀ (k : Kern K) (x z : Point K), k.eval exp sqrt x z = k.eval 
   | .wsum ws s ks, x, z => by simp only [Kern.eval]; rw [evalList_symm ks x z]
   | .prod ks, x, z => by simp only [Kern.eval]; rw [evalList_symm ks x z]
   | .subrange a b k, x, z => by simp only [Kern.eval]; rw [k_symm k]
+  | .mapped A b k, x, z => by simp only [Kern.eval]; rw [k_symm k]
 theorem evalList_symm : ∀ (ks : List (Kern K)) (x z : Point K),
     evalList exp sqrt ks x z = evalList exp sqrt ks z x
   | [], _, _ => by simp only [evalList]
@@ -119,6 +120,10 @@ theorem batch_eval_eq_single : ∀ (k : Kern K) (X1 X2 : Mat K),
       simp only [Kern.evalBlock]
       rw [batch_eval_eq_single k, tab_map]
       exact tab_congr _ _ _ _ fun x z => by simp only [Kern.eval]
+  | .mapped A b k, X1, X2 => by
+      simp only [Kern.evalBlock]
+      rw [batch_eval_eq_single k, tab_map]
+      exact tab_congr _ _ _ _ fun x z => by simp only [Kern.eval]
 theorem batch_evalList_eq : ∀ (ks : List (Kern K)) (X1 X2 : Mat K),
     evalBlockList exp sqrt ks X1 X2 = (ks.map fun k => k.eval exp sqrt).map (tab X1 X2)
   | [], _, _ => by simp only [evalBlockList, List.map_nil]
@@ -184,6 +189,10 @@ theorem batch_evalS_eq_single : ∀ (k : Kern K) (X1 X2 : Mat K),
       simp only [Kern.evalBlockS]
       exact h
   | .subrange a b k, X1, X2 => by
+      simp only [Kern.evalBlockS]
+      rw [batch_evalS_eq_single k, tab_map]
+      exact tab_congr _ _ _ _ fun x z => by simp only [Kern.eval]
+  | .mapped A b k, X1, X2 => by
       simp only [Kern.evalBlockS]
       rw [batch_evalS_eq_single k, tab_map]
       exact tab_congr _ _ _ _ fun x z => by simp only [Kern.eval]
@@ -360,6 +369,7 @@ theorem isNormalized_diag_one (hexp : exp 0 = 1) (hsqrt : ∀ a : K, 0 ≤ a →
       simp only [Kern.eval]
       exact pfold_all_one hexp hsqrt ks x hn h
   | .subrange _ _ _, _, hn, _ => by simp [Kern.isNormalized] at hn
+  | .mapped _ _ _, _, hn, _ => by simp [Kern.isNormalized] at hn
 theorem pfold_all_one (hexp : exp 0 = 1) (hsqrt : ∀ a : K, 0 ≤ a → sqrt a * sqrt a = a) :
     ∀ (ks : List (Kern K)) (x : Point K), allNormalized ks = true → DiagPosList exp sqrt ks x →
       pfold (evalList exp sqrt ks x x) 1 = 1
@@ -403,6 +413,7 @@ theorem featureDistance_def (hexp : exp 0 = 1) (hsqrt : ∀ a : K, 0 ≤ a → s
   | wsum ws s ks => simpa [Kern.featureDistanceSqr] using main (.wsum ws s ks) hx hz
   | prod ks => simpa [Kern.featureDistanceSqr] using main (.prod ks) hx hz
   | subrange a b k => simpa [Kern.featureDistanceSqr] using main (.subrange a b k) hx hz
+  | mapped A b k => simpa [Kern.featureDistanceSqr] using main (.mapped A b k) hx hz
 
 end ordered
 end SharkVerif.C05
@@ -451,6 +462,7 @@ def Admissible : Kern ℝ → Prop
   | .wsum ws s ks => (∀ w ∈ ws, 0 ≤ w) ∧ 0 ≤ s ∧ AdmissibleList ks
   | .prod ks => AdmissibleList ks
   | .subrange _ _ k => Admissible k
+  | .mapped _ _ k => Admissible k
 def AdmissibleList : List (Kern ℝ) → Prop
   | [] => True
   | k :: ks => Admissible k ∧ AdmissibleList ks
@@ -495,6 +507,9 @@ theorem kernel_psd : ∀ (k : Kern ℝ), Admissible exp k → IsPSD (k.eval exp 
   | .subrange a b k, h => by
       simp only [Admissible] at h
       exact psd_subrange exp sqrt a b k (kernel_psd k h)
+  | .mapped A b k, h => by
+      simp only [Admissible] at h
+      exact ((kernel_psd k h).comap (affine A b)).congr fun x z => by simp only [Kern.eval]
 theorem kernelList_psd : ∀ (ks : List (Kern ℝ)), AdmissibleList exp ks →
     ∀ f ∈ ks.map (fun k => k.eval exp sqrt), IsPSD f
   | [], _ => by simp
@@ -769,4 +784,65 @@ theorem linear_quadForm_nonneg (ps : List (Point K × K)) : 0 ≤ quadForm dot p
       · exact le_trans (ih hp) (le_max_right _ _))
 
 end qf
+end SharkVerif.C05
+
+/-! ## 9. SubrangeKernel, ModelKernel, PointSetKernel -/
+namespace SharkVerif.C05
+open SharkVerif.Kernels
+
+section field
+variable {K : Type} [Field K] (exp sqrt : K → K)
+
+/-- **pointSet_symm** — `PointSetKernel(k)(X,Z) = PointSetKernel(k)(Z,X)` for every base kernel expression
+and all point sets (mean of the base block; the two double sums are exchanged) -/
+theorem pointSet_symm (k : Kern K) (X Z : Mat K) :
+    pointSetEval exp sqrt k X Z = pointSetEval exp sqrt k Z X := by
+  unfold pointSetEval
+  rw [batch_eval_eq_single, batch_eval_eq_single, matSum_tab, matSum_tab, sum_sum_comm, Nat.mul_comm]
+  congr 2
+  apply List.map_congr_left
+  intro z _
+  apply congrArg
+  apply List.map_congr_left
+  intro x _
+  exact k_symm exp sqrt k x z
+
+/-- `PointSetKernel`'s block evaluation is the matrix of its single evaluations -/
+theorem pointSet_batch_eval_eq_single (k : Kern K) (B1 B2 : List (Mat K)) :
+    pointSetBlock exp sqrt k B1 B2 = B1.map fun X => B2.map fun Z => pointSetEval exp sqrt k X Z := rfl
+
+/-- Gram assembly over point-set data, every batch partition -/
+theorem pointSet_gram_assembly_correct (k : Kern K) (reg : K) (batches : List (List (Mat K))) (r c : Nat)
+    (hr : r < batches.flatten.length) (hc : c < batches.flatten.length) :
+    regularizedGram (pointSetBlock exp sqrt k) reg batches r c =
+      if r = c then pointSetEval exp sqrt k (batches.flatten[r]) (batches.flatten[c]) + reg
+      else pointSetEval exp sqrt k (batches.flatten[r]) (batches.flatten[c]) :=
+  gram_assembly_correct (pointSetEval exp sqrt k) _ (fun _ _ => rfl) reg batches r c hr hc
+
+/-- value of the point-set kernel as a double sum of single evaluations -/
+theorem pointSet_eq_mean (k : Kern K) (X Z : Mat K) :
+    pointSetEval exp sqrt k X Z =
+      (X.map fun x => (Z.map fun z => k.eval exp sqrt x z).sum).sum / natS (X.length * Z.length) := by
+  unfold pointSetEval
+  rw [batch_eval_eq_single, matSum_tab]
+
+/-- `SubrangeKernel` is symmetric / batch = single because it *is* a kernel expression -/
+theorem subrangeKernel_symm (ps : List K) (terms : List (Nat × Nat × Kern K)) (x z : Point K) :
+    (subrangeKernel exp ps terms).eval exp sqrt x z = (subrangeKernel exp ps terms).eval exp sqrt z x :=
+  k_symm exp sqrt _ x z
+
+end field
+
+/-- `SubrangeKernel` with admissible sub-kernels is PSD for every parameter vector -/
+theorem subrangeKernel_psd (sqrt : ℝ → ℝ) (ps : List ℝ) (terms : List (Nat × Nat × Kern ℝ))
+    (h : ∀ t ∈ terms, Admissible Real.exp t.2.2) :
+    IsPSD ((subrangeKernel Real.exp ps terms).eval Real.exp sqrt) := by
+  unfold subrangeKernel
+  apply wsumOfParams_psd
+  induction terms with
+  | nil => simp [AdmissibleList]
+  | cons t ts ih =>
+    simp only [List.map_cons, AdmissibleList, Admissible]
+    exact ⟨h t (List.mem_cons_self), ih fun t' ht' => h t' (List.mem_cons_of_mem _ ht')⟩
+
 end SharkVerif.C05
